@@ -37,6 +37,22 @@ package raftstorage
 //	b.Save(ctx, multiraft.PersistentState{HardState: &raftpb.HardState{Term: 1}, Entries: []raftpb.Entry{{Index: 1, Term: 1}}})
 //	// -> returns the same ErrSnapOutOfDate; b.LastIndex() == 0: flushWriteRequests fails the whole cross-scope batch
 //
+// Failed writes (model action SaveFails).  pkg/raftlog has no exported way to make a Pebble commit
+// fail, and a WAL write error injected through the verif FS hook is fatal to Pebble
+// (DB.applyInternal: "fatal commit error", the commit pipeline is unusable afterwards).  What the
+// exported API does reach is the other road to a batch that is built but never committed: a request
+// of the same cross-scope batch that saveOp.apply refuses AFTER the earlier requests were applied to
+// the writer's working copies.  The harness opens such stores with WriteBatchMaxItems 2 and a long
+// WriteBatchMaxWait, so every flush carries exactly two requests: an ordinary write travels with a
+// filler write of an unrelated scope, and a write that is to fail (the victim: a Raft-valid Save /
+// ReplaceSnapshot / MarkApplied, preferably a snapshot install) travels with a poisoned Save of the
+// saboteur scope (a committed conf-change entry that cannot be decoded; deriveConfState fails).  The
+// victim must be queued first: the harness waits until its goroutine is parked in DB.submitWrite
+// (goroutine dump; steering only, never an oracle).  Both calls return the error, nothing may have
+// changed, and the history goes on: a later write on the victim's scope recomputes the metadata
+// record from the committed writer cache, which is where a failed install that leaked into that
+// cache shows (seeded change C14-1).
+//
 // C14 constrains what the store holds for the calls that took effect.  A call that returns an error
 // the specification did not predict is therefore checked for having persisted NOTHING (a refused call
 // that changed the store is a violation), counted, and repeated; only a refusal that persists over
@@ -51,7 +67,9 @@ import (
 	"math/rand"
 	"os"
 	"path/filepath"
+	"runtime"
 	"sort"
+	"strings"
 	"sync"
 	"testing"
 	"time"
@@ -216,13 +234,23 @@ type sut struct {
 	scopes []string
 	n      int64 // MaxIdx of the specification instance
 	wait   time.Duration
+	// paired: every flush of the write worker carries exactly two requests (see "Failed writes" above).
+	paired bool
+	// steering statistics of the paired mode (never part of a verdict)
+	steerTimeouts int
+	sameBatch     int // failing pairs in which victim and saboteur returned the same error
 }
 
 var ctx = context.Background()
 
+const pairedWait = 3 * time.Second
+
 func (s *sut) open() error {
-	db, err := raftlog.Open(s.path, raftlog.Options{
-		SnapshotChunkSize: 32, WriteBatchMaxWait: s.wait, Logger: wklog.NewNop()})
+	opts := raftlog.Options{SnapshotChunkSize: 32, WriteBatchMaxWait: s.wait, Logger: wklog.NewNop()}
+	if s.paired {
+		opts.WriteBatchMaxWait, opts.WriteBatchMaxItems = pairedWait, 2
+	}
+	db, err := raftlog.Open(s.path, opts)
 	if err != nil {
 		return err
 	}
@@ -230,8 +258,106 @@ func (s *sut) open() error {
 	return nil
 }
 
-func newSUT(dir string, scopes []string, n int64, wait time.Duration) (*sut, error) {
-	s := &sut{path: filepath.Join(dir, "raft"), scopes: scopes, n: n, wait: wait}
+// ---- paired mode: fillers, saboteur, failing writes -----------------------------------------
+
+var (
+	fillerScope   = raftlog.SlotScope(901) // written by fillers only, never compared
+	saboteurScope = raftlog.SlotScope(902) // target of the poisoned Save; stays empty for ever
+)
+
+// parkedWriters counts the goroutines that have queued a request for the write worker and wait
+// for its outcome (blocked on the reply channel inside DB.submitWrite).
+func parkedWriters() int {
+	buf := make([]byte, 1<<20)
+	buf = buf[:runtime.Stack(buf, true)]
+	n := 0
+	for _, g := range strings.Split(string(buf), "\n\n") {
+		nl := strings.IndexByte(g, '\n')
+		if nl < 0 || !strings.Contains(g[:nl], "[chan receive") {
+			continue
+		}
+		if strings.HasPrefix(g[nl+1:], "github.com/WuKongIM/WuKongIM/pkg/raftlog.(*DB).submitWrite(") {
+			n++
+		}
+	}
+	return n
+}
+
+// start runs fn on its own goroutine and returns once fn has queued its request for the write
+// worker or has returned without queueing one (early = true, err = its result).
+func (s *sut) start(fn func() error) (done chan error, early bool, err error) {
+	done = make(chan error, 1)
+	go func() { done <- fn() }()
+	deadline := time.Now().Add(pairedWait / 3)
+	for spin := 0; ; spin++ {
+		select {
+		case err = <-done:
+			return done, true, err
+		default:
+		}
+		if parkedWriters() >= 1 {
+			return done, false, nil
+		}
+		if time.Now().After(deadline) { // the dump did not show it (renamed function?): go on, steering lost
+			s.steerTimeouts++
+			return done, false, nil
+		}
+		if spin < 50 {
+			runtime.Gosched()
+		} else {
+			time.Sleep(100 * time.Microsecond)
+		}
+	}
+}
+
+// mutate performs one mutating call.  In paired mode the call travels with a filler request.
+func (s *sut) mutate(fn func() error) error {
+	if !s.paired {
+		return fn()
+	}
+	done, early, err := s.start(fn)
+	if early {
+		return err
+	}
+	ferr := s.db.For(fillerScope).(multiraft.ConfigAppliedIndexStorage).MarkConfigApplied(ctx, 1)
+	err = <-done
+	if err == nil && ferr != nil {
+		return fmt.Errorf("filler write failed: %w", ferr)
+	}
+	return err
+}
+
+// poison is a Save the write worker refuses while it applies it: entry 1 is a committed
+// configuration change that cannot be decoded.
+func (s *sut) poison() error {
+	hs := raftpb.HardState{Term: 1, Commit: 1}
+	return s.db.For(saboteurScope).Save(ctx, multiraft.PersistentState{HardState: &hs,
+		Entries: []raftpb.Entry{{Index: 1, Term: 1, Type: raftpb.EntryConfChange, Data: []byte{0xff, 0xff}}}})
+}
+
+// failing performs fn so that it fails: its request shares the Pebble batch with the poisoned Save
+// queued behind it.  It returns the victim's and the saboteur's results.
+func (s *sut) failing(fn func() error) (victim, sab error, err error) {
+	if !s.paired {
+		return nil, nil, errors.New("failing writes need a store opened in paired mode")
+	}
+	done, early, verr := s.start(fn)
+	if early {
+		return verr, nil, nil
+	}
+	sab = s.poison()
+	victim = <-done
+	if sab == nil {
+		return victim, nil, errors.New("the poisoned Save was accepted: the fault injection no longer works on this code")
+	}
+	if victim != nil && victim.Error() == sab.Error() {
+		s.sameBatch++
+	}
+	return victim, sab, nil
+}
+
+func newSUT(dir string, scopes []string, n int64, wait time.Duration, paired bool) (*sut, error) {
+	s := &sut{path: filepath.Join(dir, "raft"), scopes: scopes, n: n, wait: wait, paired: paired}
 	return s, s.open()
 }
 
@@ -326,7 +452,7 @@ func (s *sut) applyInner(ev map[string]any, callErr *error) (map[string]any, err
 			sn := snapFromEv(kit.Map(ev, "snap")).pb(scope)
 			ps.Snapshot = &sn
 		}
-		err := s.st(scope).Save(ctx, ps)
+		err := s.mutate(func() error { return s.st(scope).Save(ctx, ps) })
 		*callErr = err
 		return map[string]any{"ok": err == nil}, nil
 	case "ReplaceSnapshot":
@@ -334,11 +460,12 @@ func (s *sut) applyInner(ev map[string]any, callErr *error) (map[string]any, err
 		if !ok {
 			return nil, errors.New("store does not implement ExternalSnapshotStorage")
 		}
-		err := r.ReplaceSnapshot(ctx, snapFromEv(kit.Map(ev, "snap")).pb(scope))
+		sn := snapFromEv(kit.Map(ev, "snap")).pb(scope)
+		err := s.mutate(func() error { return r.ReplaceSnapshot(ctx, sn) })
 		*callErr = err
 		return map[string]any{"ok": err == nil}, nil
 	case "MarkApplied":
-		err := s.st(scope).MarkApplied(ctx, uint64(kit.Int(ev, "i")))
+		err := s.mutate(func() error { return s.st(scope).MarkApplied(ctx, uint64(kit.Int(ev, "i"))) })
 		*callErr = err
 		return map[string]any{"ok": err == nil}, nil
 	case "MarkConfigApplied":
@@ -346,9 +473,33 @@ func (s *sut) applyInner(ev map[string]any, callErr *error) (map[string]any, err
 		if !ok {
 			return nil, errors.New("store does not implement ConfigAppliedIndexStorage")
 		}
-		err := r.MarkConfigApplied(ctx, uint64(kit.Int(ev, "i")))
+		err := s.mutate(func() error { return r.MarkConfigApplied(ctx, uint64(kit.Int(ev, "i"))) })
 		*callErr = err
 		return map[string]any{"ok": err == nil}, nil
+	case "SaveFails":
+		// ev["call"] is the attempted (Raft-valid) write; it is made to fail.
+		call := kit.Map(ev, "call")
+		if call == nil || kit.Str(call, "s") != scope {
+			return nil, errors.New("SaveFails without the call to attempt")
+		}
+		plain := &sut{path: s.path, db: s.db, scopes: s.scopes, n: s.n}
+		var inner error
+		victim, _, err := s.failing(func() error {
+			var ce error
+			_, inner = plain.applyInner(call, &ce)
+			return ce
+		})
+		if err == nil && inner != nil {
+			err = inner
+		}
+		if err != nil {
+			return nil, err
+		}
+		if victim == nil {
+			return nil, fmt.Errorf("fault injection: the attempted write %s did not fail", kit.JSON(call))
+		}
+		*callErr = victim
+		return map[string]any{"ok": false}, nil
 	case "Reopen":
 		if err := s.db.Close(); err != nil {
 			return nil, fmt.Errorf("close: %w", err)
@@ -647,6 +798,8 @@ func (x *runner) refStep(ev map[string]any, res map[string]any, projOf func(stri
 			ok, err = r.replace(snapFromEv(kit.Map(ev, "snap")).pb(scope))
 		case "MarkApplied":
 			r.applied, ok = kit.Int(ev, "i"), true
+		case "SaveFails": // the caller saw an error: the reference is not told
+			ok = false
 		default:
 			ok = true
 		}
@@ -730,6 +883,69 @@ type replayOutcome struct {
 	refusals int // calls that failed although the specification accepts them, persisted nothing and succeeded when repeated
 	refusal  any // the first of them, written out
 	actions  []string
+	// paired mode: writes made to fail, how many of them demonstrably shared the saboteur's batch,
+	// and how often the queueing order could not be steered
+	faults, sameBatch, steerTimeouts int
+}
+
+// hasFaults reports whether the behaviour contains writes that are to fail.
+func hasFaults(b kit.Behaviour) bool {
+	for _, st := range b.Steps {
+		if kit.Str(st.Ev, "a") == "SaveFails" {
+			return true
+		}
+	}
+	return false
+}
+
+// withoutFaults drops the failed writes: they change nothing, so the rest is a behaviour of the
+// specification with the same replies and projections.
+func withoutFaults(b kit.Behaviour) kit.Behaviour {
+	out := kit.Behaviour{Final: b.Final}
+	for _, st := range b.Steps {
+		if kit.Str(st.Ev, "a") != "SaveFails" {
+			out.Steps = append(out.Steps, st)
+		}
+	}
+	return out
+}
+
+// victimFor draws the write that a SaveFails step attempts on scope sc: a Raft-valid mutating call
+// the store would accept, judged on the scope's reference; mostly one that carries a newer snapshot
+// (install, compaction, replacement), because that is the write that rewrites the cached tail.
+func victimFor(rng *rand.Rand, refs map[string]*refStore, sc string) map[string]any {
+	fallback := kit.Ev("MarkConfigApplied", "s", sc, "i", 0)
+	r := refs[sc]
+	if r == nil || r.dead {
+		return fallback
+	}
+	d := &driver{rng: rng, refs: refs, scopes: []string{sc}}
+	wantSnap := rng.Intn(4) != 0
+	for try := 0; try < 300; try++ {
+		ev := d.next()
+		switch kit.Str(ev, "a") {
+		case "Save":
+			if kit.Bool(ev, "hasSnap") {
+				if kit.ToInt(kit.Map(ev, "snap")["i"]) > r.snapIdx() {
+					return ev
+				}
+				continue
+			}
+			fallback = ev
+			if !wantSnap {
+				return ev
+			}
+		case "ReplaceSnapshot":
+			if i := kit.ToInt(kit.Map(ev, "snap")["i"]); i != 0 && i == r.applied && i >= r.snapIdx() {
+				return ev
+			}
+		case "MarkApplied":
+			if !wantSnap && rng.Intn(3) == 0 {
+				return ev
+			}
+		}
+	}
+	return fallback
 }
 
 func errNote(err error) string {
@@ -775,16 +991,20 @@ func callChecked(s *sut, ev map[string]any, prev map[string]any) (res map[string
 
 // replaySequential replays one behaviour step by step: reply and full projection (every scope)
 // against the specification, every scope against its reference, then a closing reopen.
-func replaySequential(dir string, b kit.Behaviour, withRef bool) replayOutcome {
-	out := replayOutcome{}
+// A behaviour with SaveFails steps is replayed on a store in paired mode; vrng draws the writes those
+// steps attempt (they are stored in the step as "call", so a replay artefact repeats them).
+func replaySequential(dir string, b kit.Behaviour, withRef bool, vrng *rand.Rand) (out replayOutcome) {
 	scopes := []string{"s1", "s2"}
 	n := kit.Int(b.Steps[0].Ev, "n")
-	s, err := newSUT(dir, scopes, n, 50*time.Microsecond)
+	s, err := newSUT(dir, scopes, n, 50*time.Microsecond, hasFaults(b))
 	if err != nil {
 		out.f = &finding{kind: "infra", detail: "open: " + err.Error()}
 		return out
 	}
-	defer func() { _ = s.db.Close() }()
+	defer func() {
+		_ = s.db.Close()
+		out.sameBatch, out.steerTimeouts = s.sameBatch, s.steerTimeouts
+	}()
 	x := &runner{sut: s, refs: map[string]*refStore{}}
 	if withRef {
 		for _, sc := range scopes {
@@ -797,6 +1017,15 @@ func replaySequential(dir string, b kit.Behaviour, withRef bool) replayOutcome {
 		return out
 	}
 	check := func(si int, ev map[string]any, wantRes any, wantSt any) *finding {
+		if kit.Str(ev, "a") == "SaveFails" {
+			out.faults++
+			if kit.Map(ev, "call") == nil {
+				if !withRef || vrng == nil {
+					return &finding{kind: "infra", detail: fmt.Sprintf("step %d: SaveFails without a reference to draw the attempted write from", si)}
+				}
+				ev["call"] = kit.Canon(victimFor(vrng, x.refs, kit.Str(ev, "s")))
+			}
+		}
 		res, callErr, n, sample, f, err := callChecked(s, ev, kit.Map(prev, kit.Str(ev, "s")))
 		if n > 0 && out.refusal == nil {
 			out.refusal = sample
@@ -867,7 +1096,7 @@ func replayConcurrent(dir string, b kit.Behaviour) replayOutcome {
 	out := replayOutcome{}
 	scopes := []string{"s1", "s2"}
 	n := kit.Int(b.Steps[0].Ev, "n")
-	s, err := newSUT(dir, scopes, n, 2*time.Millisecond)
+	s, err := newSUT(dir, scopes, n, 2*time.Millisecond, false)
 	if err != nil {
 		out.f = &finding{kind: "infra", detail: "open: " + err.Error()}
 		return out
@@ -1254,6 +1483,25 @@ func TestVerifRaftStorage(t *testing.T) {
 	if err != nil {
 		rep.Infra("load behaviours: %v", err)
 	}
+	// behaviours with failed writes (second sim stage "fault"; absent in a --replay run)
+	if dir := os.Getenv("VERIF_BEH_DIR"); dir != "" {
+		if _, serr := os.Stat(filepath.Join(dir, "beh_fault.jsonl")); serr == nil {
+			fb, err := kit.LoadBehaviours(filepath.Join(dir, "beh_fault.jsonl"))
+			if err != nil {
+				rep.Infra("load fault behaviours: %v", err)
+			}
+			behs = append(behs, fb...)
+		}
+	}
+	noteFaults := func(o replayOutcome) {
+		if o.faults > 0 {
+			rep.AddExtra("failed_writes_injected", o.faults)
+			rep.AddExtra("failed_writes_sharing_the_saboteurs_batch", o.sameBatch)
+		}
+		if o.steerTimeouts > 0 {
+			rep.AddExtra("queueing_order_not_steered", o.steerTimeouts)
+		}
+	}
 	concEvery := env.Pick(4, 2)
 	for bi, b := range behs {
 		if len(b.Steps) == 0 || kit.Str(b.Steps[0].Ev, "a") != "Init" {
@@ -1261,8 +1509,13 @@ func TestVerifRaftStorage(t *testing.T) {
 			continue
 		}
 		dir := fresh()
-		out := replaySequential(dir, b, true)
+		faulty := hasFaults(b)
+		out := replaySequential(dir, b, true, rand.New(rand.NewSource(env.Seed*1000003+int64(bi))))
 		_ = os.RemoveAll(dir)
+		noteFaults(out)
+		if faulty {
+			rep.AddExtra("behaviours_replayed_with_failed_writes", 1)
+		}
 		for _, a := range out.actions {
 			rep.Cover(a)
 		}
@@ -1282,7 +1535,7 @@ func TestVerifRaftStorage(t *testing.T) {
 			// self-test of the binding: an altered expectation must be noticed
 			alt := alter(b)
 			d2 := fresh()
-			o2 := replaySequential(d2, alt, false)
+			o2 := replaySequential(d2, alt, false, nil)
 			_ = os.RemoveAll(d2)
 			rep.SelfTest("altered_expectation_detected", o2.f != nil && o2.f.kind == "state")
 			if o2.f == nil || o2.f.kind != "state" {
@@ -1291,7 +1544,7 @@ func TestVerifRaftStorage(t *testing.T) {
 		}
 		if out.f == nil && bi%concEvery == 0 {
 			dir := fresh()
-			oc := replayConcurrent(dir, b)
+			oc := replayConcurrent(dir, withoutFaults(b))
 			_ = os.RemoveAll(dir)
 			rep.AddExtra("behaviours_replayed_with_concurrent_scopes", 1)
 			if oc.f != nil {
@@ -1310,7 +1563,8 @@ func TestVerifRaftStorage(t *testing.T) {
 	traces := env.Pick(30, 300)
 	for tr := 0; tr < traces && rep.Violations() < 4; tr++ {
 		dir := fresh()
-		s, err := newSUT(dir, scopes, drvN, 50*time.Microsecond)
+		paired := tr%3 == 2 // a third of the traces with writes that are made to fail
+		s, err := newSUT(dir, scopes, drvN, 50*time.Microsecond, paired)
 		if err != nil {
 			rep.Infra("open: %v", err)
 			break
@@ -1330,7 +1584,14 @@ func TestVerifRaftStorage(t *testing.T) {
 		var hist []any
 		steps := 20 + rng.Intn(26)
 		for i := 0; i < steps; i++ {
-			ev := kit.Canon(d.next()).(map[string]any) // plain JSON shapes, as a replayed event has them
+			var ev map[string]any
+			if paired && rng.Intn(100) < 12 {
+				sc := scopes[rng.Intn(len(scopes))]
+				ev = kit.Ev("SaveFails", "s", sc, "call", victimFor(rng, d.refs, sc))
+			} else {
+				ev = d.next()
+			}
+			ev = kit.Canon(ev).(map[string]any) // plain JSON shapes, as a replayed event has them
 			res, err := s.apply(ev)
 			if err != nil {
 				var oe obsErr
@@ -1357,6 +1618,13 @@ func TestVerifRaftStorage(t *testing.T) {
 		}
 		_ = s.db.Close()
 		_ = os.RemoveAll(dir)
+		if paired {
+			rep.AddExtra("traces_recorded_with_failed_writes", 1)
+			rep.AddExtra("failed_writes_sharing_the_saboteurs_batch", s.sameBatch)
+			if s.steerTimeouts > 0 {
+				rep.AddExtra("queueing_order_not_steered", s.steerTimeouts)
+			}
+		}
 	}
 	if err := rec.Close(); err != nil {
 		rep.Infra("trace file: %v", err)
@@ -1370,7 +1638,7 @@ func TestVerifRaftStorage(t *testing.T) {
 func firstKnown(dir string, b kit.Behaviour) *finding {
 	defer os.RemoveAll(dir)
 	scopes := []string{"s1", "s2"}
-	s, err := newSUT(dir, scopes, kit.Int(b.Steps[0].Ev, "n"), 50*time.Microsecond)
+	s, err := newSUT(dir, scopes, kit.Int(b.Steps[0].Ev, "n"), 50*time.Microsecond, false)
 	if err != nil {
 		return &finding{kind: "infra", detail: err.Error()}
 	}
